@@ -8,10 +8,12 @@ package sim
 // image capture in the middle of a transaction).
 
 import (
+	"bytes"
 	"database/sql"
 	"io"
 	"os"
 	"path/filepath"
+	"runtime"
 	"strings"
 	"sync"
 
@@ -48,6 +50,11 @@ type FaultPlan struct {
 	Rows       int
 	// YieldOnDelete: count only DELETE statements (a rewind in progress) towards YieldAt
 	YieldOnDelete bool
+	// YieldWritesOnly: run Yield at the first INSERT / DELETE / UPDATE at or after the YieldAt-th counted statement.
+	// Used for context cancellation: database/sql closes the rows of a running SELECT from a goroutine of its own
+	// when the transaction's context dies, so how many rows a SELECT that is running at that instant still delivers is
+	// decided by the Go scheduler; a write has no rows, and what follows it fails at the statement boundary.
+	YieldWritesOnly bool
 
 	// observed
 	Count      int  // counted statements seen in the window
@@ -195,6 +202,11 @@ func (f *faultRegistry) authorize(file string, op int, a1, a2, a3 string) int {
 				p.Yields++
 			}
 		}
+	} else if p.YieldWritesOnly {
+		if p.YieldAt != 0 && p.Count >= p.YieldAt && p.Yields == 0 && p.Yield != nil && op != sqlite3.SQLITE_SELECT {
+			yield = p.Yield
+			p.Yields++
+		}
 	} else if p.YieldAt != 0 && p.Count == p.YieldAt && p.Yield != nil {
 		yield = p.Yield
 		p.Yields++
@@ -292,4 +304,38 @@ func faultPlanOf(dbPath string) *FaultPlan {
 	faults.mu.Lock()
 	defer faults.mu.Unlock()
 	return faults.plans[normPath(dbPath)]
+}
+
+// WaitTxAborted is called from a fault hook (i.e. from inside a running statement of transaction T) right after the
+// context T was begun with has been cancelled. database/sql reacts to the cancellation on a goroutine of its own
+// (Tx.awaitDone): it marks T as done and then waits for the running statement to finish before it rolls T back. Until
+// that goroutine has run, further statements of T still succeed; afterwards they fail with ErrTxDone. Which of the two
+// happens is decided by the Go scheduler, not by the simulator, so the hook waits here until the watcher goroutine is
+// parked behind the running statement: from then on every continuation is the same (the cancellation is "seen" at the
+// next statement boundary). Returns false when the watcher did not show up (the run is then reported as harness trouble).
+func WaitTxAborted() bool {
+	buf := make([]byte, 1<<20)
+	for i := 0; i < 200000; i++ {
+		n := runtime.Stack(buf, true)
+		for _, g := range bytes.Split(buf[:n], []byte("\n\n")) {
+			if bytes.Contains(g, []byte("database/sql.(*Tx).awaitDone")) && bytes.Contains(g, []byte("sync.(*RWMutex).Lock")) {
+				return true
+			}
+		}
+		runtime.Gosched()
+		if i > 1000 {
+			// let the OS scheduler run the other thread
+			spin(50 * 1000)
+		}
+	}
+	return false
+}
+
+//go:noinline
+func spin(n int) {
+	x := 0
+	for i := 0; i < n; i++ {
+		x += i
+	}
+	_ = x
 }
